@@ -55,6 +55,19 @@ def run(ctx: RuleContext):
     from .c01 import check_eval_discipline
 
     ctx.reuse("C02.6", check_eval_discipline, ctx, "C02.6")
+    # "one consistent assignment for the arguments and the return value *of this call*": the checks of a call see the frame of that call
+    # on top of the stack only while push / pop are balanced around the body and nothing suspends inside (a generator wrapper that yields
+    # with its frame pushed leaves it on top of its caller's: the caller's return value is checked against the generator's bindings) --
+    # C05's balance / no-suspension clauses
+    ctx.reuse("C02.8", _frame_discipline, ctx, r)
+
+
+def _frame_discipline(ctx, r):
+    from ..callgraph import CallGraph
+    from ..typestate import StackBalance
+    from . import c05
+
+    c05.check_balance(ctx, StackBalance(ctx.model, r), CallGraph(ctx.model), "C02.8")
 
 
 def _bind_discipline(ctx):
@@ -191,11 +204,47 @@ def check_signatures_and_dataclass(ctx, r):
     # param_signature = full_signature.replace(return_annotation=Any)
     defs = {norm(st.targets[0]): st.value for st in walk_scope(jt.node) if isinstance(st, ast.Assign) and len(st.targets) == 1 and isinstance(st.targets[0], ast.Name)}
     ps = defs.get("param_signature")
-    ok = isinstance(ps, ast.Call) and norm(ps.func) == "full_signature.replace" and [k.arg for k in ps.keywords] == ["return_annotation"] and norm(ps.keywords[0].value) == "Any"
-    if ok:
-        ctx.ok("C02.3", jt.qualname, "parameter check uses the full signature with only the return annotation blanked")
+    # every definition of param_signature: `<S>.replace(return_annotation=Any)` with S = full_signature, or S the very object that
+    # full_signature is bound to by the statement next to it (`full_signature = sig; param_signature = sig.replace(..)`)
+    pdefs = []
+    for blk_owner in ast.walk(jt.node):
+        for fld in ("body", "orelse", "finalbody"):
+            blk = getattr(blk_owner, fld, None)
+            if not isinstance(blk, list):
+                continue
+            for i, st in enumerate(blk):
+                if isinstance(st, ast.Assign) and len(st.targets) == 1 and norm(st.targets[0]) == "param_signature":
+                    pdefs.append((st, blk[i - 1] if i else None, blk[i + 1] if i + 1 < len(blk) else None))
+        for h_ in getattr(blk_owner, "handlers", []) or []:
+            for i, st in enumerate(h_.body):
+                if isinstance(st, ast.Assign) and len(st.targets) == 1 and norm(st.targets[0]) == "param_signature":
+                    pdefs.append((st, h_.body[i - 1] if i else None, h_.body[i + 1] if i + 1 < len(h_.body) else None))
+    verdicts = []
+    for st, prev, nxt in pdefs:
+        v_ = st.value
+        if isinstance(v_, ast.Call) and isinstance(v_.func, ast.Attribute) and v_.func.attr == "replace" and not v_.args:
+            kws = [k.arg for k in v_.keywords]
+            src = norm(v_.func.value)
+            same = src == "full_signature" or any(isinstance(x, ast.Assign) and len(x.targets) == 1 and norm(x.targets[0]) == "full_signature" and norm(x.value) == src for x in (prev, nxt) if x is not None)
+            if kws == ["return_annotation"] and norm(v_.keywords[0].value) == "Any" and same:
+                verdicts.append("ok")
+            elif kws != ["return_annotation"] or norm(v_.keywords[0].value) != "Any":
+                verdicts.append("bad")  # something else than the return annotation is replaced / it is not blanked to Any
+            else:
+                verdicts.append("unknown")
+        elif isinstance(v_, ast.Name) and v_.id == "full_signature":
+            verdicts.append("bad")  # the return annotation is checked together with the parameters
+        else:
+            verdicts.append("unknown")
+    if not pdefs:
+        verdicts.append("unknown")
+    if "bad" in verdicts:
+        bad_st = pdefs[verdicts.index("bad")][0]
+        ctx.bad("C02.3", jt, bad_st.value, "the parameter-check signature is not the full signature with (only) the return annotation replaced by Any")
+    elif "unknown" in verdicts:
+        raise AnalysisError("C02.3: how the parameter-check signature is derived from the full signature was not recognised")
     else:
-        ctx.bad("C02.3", jt, ps if ps is not None else jt.node, "the parameter-check signature is not the full signature with (only) the return annotation replaced by Any")
+        ctx.ok("C02.3", jt.qualname, "parameter check uses the full signature with only the return annotation blanked")
     calls = [st.value for st in walk_scope(jt.node) if isinstance(st, ast.Assign) and isinstance(st.value, ast.Call) and m.resolve_call(jt, st.value).kind == "func"
              and m.resolve_call(jt, st.value).target.name == "_make_fn_with_signature"]
     sigs = {}
